@@ -65,7 +65,8 @@ def run_obligations(scratch, obls, tier, jobs=None, timeout_s=None, mem_gb=None)
             if ln.startswith("// @limits"):
                 lim.update(parse_obl_line(ln.replace("@limits", "@obl")))
     jobs = jobs or int(os.environ.get("VERIF_JOBS") or lim.get("jobs") or ("12" if tier == "quick" else "8"))
-    timeout_s = timeout_s or int(os.environ.get("VERIF_HARNESS_TIMEOUT", "300" if tier == "quick" else "1500"))
+    timeout_s = timeout_s or int(os.environ.get("VERIF_HARNESS_TIMEOUT") or (lim.get("timeout_s") if tier == "quick" else None)
+                                 or ("300" if tier == "quick" else "1500"))
     mem_gb = mem_gb or float(os.environ.get("VERIF_MEM_GB") or lim.get("mem_gb") or ("16" if tier == "quick" else "28"))
     export = os.path.join(scratch.dir, "kani.json")
     logf = os.path.join(scratch.dir, "kani.log")
@@ -79,6 +80,25 @@ def run_obligations(scratch, obls, tier, jobs=None, timeout_s=None, mem_gb=None)
     if not os.path.exists(export):
         # build failure (harness does not compile against this tree) or driver crash
         tail = "\n".join(l for l in out.splitlines() if l.startswith("error") or "error[" in l)[:3000]
+        # one harness file that no longer compiles (a private item it names was changed) must not take the obligations of
+        # the other files down with it: drop the offending files and decide the rest
+        broken = sorted({m for m in re.findall(r"-->\s*\S*?__verif/(\w+\.rs):", out) if m in scratch.injected})
+        rest = [o for o in obls if o["file"] not in broken]
+        if broken and rest and not getattr(scratch, "_retried", False):
+            scratch._retried = True
+            for hf in broken:
+                host = os.path.join(scratch.crate, "src", INJECT[hf])
+                txt = open(host).read()
+                txt = re.sub(r"\n#\[cfg\(kani\)\] #\[path = \"[^\"]*" + re.escape(hf) + r"\"\] mod \w+;\n", "\n", txt)
+                open(host, "w").write(txt)
+                scratch.injected.pop(hf, None)
+            log(f"harness file(s) {broken} do not compile against this tree: deciding the other {len(rest)} obligation(s)")
+            res2, meta2 = run_obligations(scratch, rest, tier, jobs, timeout_s, mem_gb)
+            meta2["build_error"] = (tail or out[-1500:])[:1500]
+            meta2["dropped_harness_files"] = broken
+            dead = [dict(o, status="inconclusive", reason="harness file does not compile against this tree: " + (tail[:200] or "see log"),
+                         failed=[], solver_s=0.0, build_failed=True) for o in obls if o["file"] in broken]
+            return res2 + dead, meta2
         meta["build_error"] = tail or out[-3000:]
         return [dict(o, status="inconclusive", reason="kani build/driver failed: " + (tail[:300] or "see log"),
                      failed=[], solver_s=0.0, build_failed=True) for o in obls], meta
